@@ -4,7 +4,7 @@ import ast
 from . import rule, info
 from ..program import AnalysisError, src, norm, ClassInfo
 from ..pattern import match, matches
-from ..util import (is_name, calls_in, callee_qual, deref, ancestors, handler_outcomes, handler_body_nodes,
+from ..util import (cond_expr, is_name, calls_in, callee_qual, deref, ancestors, handler_outcomes, handler_body_nodes,
                     enclosing_trys, handler_covers, completes_normally, evaluator_calls, fmt_witness)
 
 info('C05',
@@ -469,9 +469,12 @@ def formatting_invariants(ctx):
     upd = [n for n in loops[0].body if isinstance(n, ast.Assign) and is_name(n.targets[0], prev) and is_name(n.value, tgt)]
     ctx.ob(len(upd) == 1, r, 'the remembered target is updated at every level: %s' % [norm(u_) for u_ in upd])
     # the error line of a level: printed unless it is the root error
-    e = [n for n in loops[0].body if isinstance(n, ast.If) and names[3] in norm(n.test) and 'root_error' in norm(n.test)]
-    ok = len(e) == 1 and matches(e[0].test, '%s is not None and %s is not %s' % (names[3], names[3], r.params[1]))
-    ctx.ob(ok, r, 'a level\'s own error is printed unless it is the root error (identity): %s' % (norm(e[0].test) if e else None))
+    rcfg = ctx.cfg(r)
+    e = [n for n in loops[0].body if isinstance(n, ast.If)
+         and matches(cond_expr(rcfg, n), '%s is not None and %s is not %s' % (names[3], names[3], r.params[1]))]
+    ok = len(e) == 1
+    ctx.ob(ok, r, 'a level\'s own error is printed unless it is the root error (identity): %s'
+           % (norm(cond_expr(rcfg, e[0])) if e else None))
     # _finalize: only a leading caret-only line is trimmed
     f = ctx.unit('core.GlomError._finalize')
     trims = [n for n in f.own_nodes() if isinstance(n, ast.If) and isinstance(n.test, ast.Compare) and 'set(' in norm(n.test)]
